@@ -183,6 +183,10 @@ func wlMux(stop bool) func(int64) {
 			}()
 		}
 		wg.Wait()
+		if stop { // calls and streams on the connection that has failed
+			raceTrafficT(cc, 2, 2, &wg, 50*time.Millisecond, 50*time.Millisecond)
+			wg.Wait()
+		}
 		if !stop { // a second wave after the first has finished, then Stop concurrent with it
 			raceTraffic(cc, 4, 3, &wg)
 			srv.Stop()
@@ -267,13 +271,21 @@ func wlProxy(seed int64) {
 		servers.Add(1)
 		go func() { defer servers.Done(); srv.Serve(ctx, l.S) }()
 	}
+	// The peers that are dialled on demand exist before the proxy does, and the dial function touches
+	// no lock, channel or WaitGroup: it runs in the proxy's connect goroutine, and any synchronisation in
+	// it (the rig's own mutex, say) would give the race detector a happens-before path from the Serve
+	// goroutine to connect's write of the connection - hiding the very races this phase is for.
+	slow := map[string]*Link{} // read-only once the proxy runs
+	for k := 0; k < 2; k++ {
+		id := fmt.Sprintf("slow%d", k)
+		slow[id] = newLink()
+		serve(id, slow[id])
+	}
 	dial := func(id string) (goat.RpcReadWriter, error) {
 		switch {
 		case strings.HasPrefix(id, "slow"):
 			time.Sleep(300 * time.Millisecond) // the peer is far away; the race workloads are free-running, real time
-			l := newLink()
-			serve(id, l)
-			return l.C, nil
+			return slow[id].C, nil
 		case strings.HasPrefix(id, "latefail"):
 			time.Sleep(15 * time.Millisecond)
 			return nil, errors.New("dial failed late")
@@ -315,7 +327,7 @@ func wlProxy(seed int64) {
 		extra := newLink()
 		p.AddClient("c0", extra.S)
 		lmu.Lock()
-		l1, l3 := links[1], links[3]
+		l1, l3 := links[3], links[5] // the links of c0 and c1 (two slow peers, then s0 c0 s1 c1 ...)
 		lmu.Unlock()
 		l1.C.FailRead(errInjected)
 		l3.S.FailRead(errInjected)
@@ -355,6 +367,10 @@ func wlProxy(seed int64) {
 		bwg.Wait()
 		raceBurst(cc, 6, 300*time.Millisecond, &bwg)
 		bwg.Wait()
+		lst.C.FailWrites(errInjected) // and now its writer fails: the proxy forgets the peer
+		raceBurst(cc, 4, 50*time.Millisecond, &bwg)
+		bwg.Wait()
+		p.VerifProxyClients()
 	}()
 	// failing dials, rejected and rewritten destinations
 	wg.Add(1)
@@ -479,7 +495,7 @@ func wlHttp(seed int64) {
 		go func(k int) { // requests
 			defer wg.Done()
 			for i := 0; i < 12; i++ {
-				b, _ := postBody([]string{"ok:a", "ok:b", "ok:c", "ok:d", "garbage", "noheader"}[(k+i)%6], k*100+i)
+				b, _ := postBody([]string{"ok:a", "ok:b", "ok:c", "ok:d", "garbage", "noheader", "maperr", "emptysrc"}[(k+i)%8], k*100+i)
 				req := httptest.NewRequest("POST", "http://goat.test/", bytes.NewReader(b)).WithContext(ctx)
 				goh.ServeHTTP(httptest.NewRecorder(), req)
 			}
@@ -752,7 +768,7 @@ func wlOpts(seed int64) {
 	for _, chained := range []bool{false, true} {
 		l, srv, cc, served, scancel := mk(chained)
 		var wg sync.WaitGroup
-		raceTraffic(cc, 6, 4, &wg)
+		raceTrafficT(cc, 6, 4, &wg, 300*time.Millisecond, 800*time.Millisecond)
 		// malformed and unroutable envelopes straight into the server, concurrent with the traffic
 		wg.Add(1)
 		go func() {
@@ -778,13 +794,21 @@ func wlOpts(seed int64) {
 				// and towards the client: replies nobody waits for
 				l.C.Deliver(&Rpc{Id: id + 10, Header: hdr("/verif.Echo/Unary", "dst", "src"), Body: &goatorepo.Body{Data: body}})
 				l.C.Deliver(&Rpc{Id: id + 11})
+				// undecodable metadata in a reply / trailer for whichever call or stream has this id
+				h = hdr("/verif.Echo/Bidi", "dst", "src")
+				h.Headers = bad
+				l.C.Deliver(&Rpc{Id: uint64(i*5 + 3), Header: h})
+				l.C.Deliver(&Rpc{Id: uint64(i*5 + 4), Header: hdr("/verif.Echo/Bidi", "dst", "src"), Status: &goatorepo.ResponseStatus{}, Trailer: &goatorepo.Trailer{Metadata: bad}})
 				runtime.Gosched()
 			}
 		}()
 		wg.Wait()
 		// Close concurrent with a last wave: calls on a closing / closed client connection
-		raceTraffic(cc, 3, 2, &wg)
+		raceTrafficT(cc, 3, 2, &wg, 200*time.Millisecond, 500*time.Millisecond)
 		time.Sleep(time.Duration(seed%3) * time.Millisecond)
+		if chained {
+			l.S.FailWrites(errInjected) // the server's writes fail under its handlers
+		}
 		cc.Close()
 		wg.Wait()
 		raceBurst(cc, 2, 50*time.Millisecond, &wg)
@@ -909,7 +933,7 @@ func TestC15Race(t *testing.T) {
 		em.Marker("end", idx)
 		return
 	}
-	loops := "1"
+	loops := "2" // the whole run takes ~12 s per repetition
 	if thorough() {
 		loops = "12"
 	}
